@@ -410,7 +410,7 @@ def canonicalize_subfields(msg):
                         block[var] = p2
                         changed = True
         if not changed:
-            return True
+            return True if _pass == 0 else "changed"
     return False
 
 
@@ -582,7 +582,11 @@ class RoundTrip:
         if deps and empties:
             attempts.append((("dep", "empty"), repaired, True))
         for causes, txt, fill in attempts:
-            st2, _d2, _ = self.reparse(txt, table, m2, fill)
+            st2, d2, _ = self.reparse(txt, table, m2, fill)
+            if st2 != "ok":
+                # what remains once the separately keyed causes are repaired is the failure to report
+                status, detail = st2, d2 + " (after setting aside: " + ", ".join(
+                    {"dep": "packers that need a later field", "empty": "zero-instance Variable blocks"}[c_] for c_ in causes) + ")"
             if st2 == "ok":
                 out = []
                 if "dep" in causes:
@@ -642,6 +646,9 @@ def bounded_text_roundtrip(reg, tier, seed):
                 _ = m2.blocks
             except Exception:  # noqa
                 stats["unencodable"] += 1
+                return
+            if canonicalize_subfields(m2) is not True:      # as decoded from the wire it must already be canonical, otherwise not this driver's subject
+                stats["discarded_noncanonical"] += 1
                 return
             m2.direction = m.direction
             tables = replacement_tables(m2, rng)
